@@ -432,4 +432,46 @@ theorem mkQName_loc_of_tagOk (s : Str) (h : tagOk s = true) (hn : (mkQName s).ns
       subst this
       simp [tagOk] at h
 
+theorem splitBrace_append (uri loc : Str) (h : '}' ∉ uri) :
+    splitBrace (uri ++ '}' :: loc) = some (uri, loc) := by
+  induction uri with
+  | nil => simp [splitBrace]
+  | cons c cs ih =>
+    simp only [List.mem_cons, not_or] at h
+    have hc : c ≠ '}' := fun e => h.1 e.symm
+    simp [splitBrace, hc, ih h.2]
+
+theorem lstripBrace_of_head (s : Str) (h : s.head? ≠ some '{') : lstripBrace s = s := by
+  cases s with
+  | nil => rfl
+  | cons c cs =>
+    unfold lstripBrace
+    split
+    · rename_i heq; simp only [List.cons.injEq] at heq; simp [heq.1] at h
+    · rfl
+
+/-- Expat reports a namespaced name as `uri}local` (it refuses URIs containing the separator).
+    `QName` recovers `(uri, local)` from it — provided the URI does not begin with `{` -/
+theorem mkQName_expat_name (uri loc : Str) (h1 : '}' ∉ uri) (h2 : uri.head? ≠ some '{') (h3 : uri ≠ []) :
+    mkQName (uri ++ '}' :: loc) = ⟨uri, loc⟩ := by
+  have hh : (uri ++ '}' :: loc).head? ≠ some '{' := by
+    cases uri with
+    | nil => exact absurd rfl h3
+    | cons c cs => simpa using h2
+  unfold mkQName
+  rw [lstripBrace_of_head _ hh, splitBrace_append uri loc h1]
+
+theorem splitBrace_none (s : Str) (h : '}' ∉ s) : splitBrace s = none := by
+  induction s with
+  | nil => rfl
+  | cons c cs ih =>
+    simp only [List.mem_cons, not_or] at h
+    have hc : c ≠ '}' := fun e => h.1 e.symm
+    simp [splitBrace, hc, ih h.2]
+
+/-- a name without namespace (no separator in it, as XML names never contain braces) stays as it is -/
+theorem mkQName_plain_name (s : Str) (h1 : '}' ∉ s) (h2 : s.head? ≠ some '{') : mkQName s = ⟨[], s⟩ := by
+  unfold mkQName
+  rw [lstripBrace_of_head s h2, splitBrace_none s h1]
+
 end Genshi.Parse
